@@ -341,14 +341,19 @@ Definition parse_message (layout : list (bytes * bytes)) (data : bytes)
   do '(items, rest) <- parse_struct (length types) types data;
   Ret (combine (layout_names layout) items, rest).
 
+(* post_unpack_alert: the payload is parsed as an alert sub-message inside try/except Exception; any
+   exception (also a missing / non-bytes payload) gives alert_info = None *)
 Definition post_unpack_alert (d : list (bytes * pyval)) : outcome (list (bytes * pyval)) :=
-  match str_lookup d (str "payload") with
-  | None => Raise E_KEY
-  | Some (VBytes payload) =>
-    do '(d1, _) <- parse_message alert_layout payload;
-    Ret (d ++ [(str "alert_info", VDict d1)])
-  | Some _ => Raise E_TYPE
-  end.
+  do info <- match str_lookup d (str "payload") with
+             | Some (VBytes payload) =>
+               match parse_message alert_layout payload with
+               | Ret (d1, _) => Ret (VDict d1)
+               | Raise _ => Ret VNone
+               | OutOfFuel => OutOfFuel
+               end
+             | _ => Ret VNone
+             end;
+  Ret (d ++ [(str "alert_info", info)]).
 
 Definition parse_from_data (name : bytes) (data : bytes) : outcome (list (bytes * pyval)) :=
   match str_lookup msgs name with
